@@ -18,7 +18,7 @@ def worker(slot, seed, own, names):
     from try_mutant import evaluate
     repo = os.path.join(SLOTS, str(slot), "repo")
     for d in names:
-        patch = os.path.join(VERIF, "seeded", d, "patch.diff")
+        patch = os.path.join(VERIF, os.environ.get("MATRIX_ROOT", "seeded"), d, "patch.diff")
         files = [l[6:] for l in open(patch).read().splitlines() if l.startswith("+++ b/")]
         pids = sorted(set((PARSER if any("parser" in f for f in files) else []) +
                           (TRANSPORT if any("parser" not in f for f in files) else [])))
@@ -46,7 +46,7 @@ def worker(slot, seed, own, names):
 
 def main():
     args = sys.argv[1:]
-    nslots, own, seed = 6, False, 1
+    nslots, own, seed, root = 6, False, 1, "seeded"
     while args and args[0].startswith("--"):
         a = args.pop(0)
         if a == "--slots":
@@ -55,10 +55,13 @@ def main():
             own = True
         elif a == "--seed":
             seed = int(args.pop(0))
+        elif a == "--root":      # "harmless": behaviour/property-preserving rewrites that must NOT fire
+            root = args.pop(0)
+            os.environ["MATRIX_ROOT"] = root
         elif a == "--worker":
             slot = int(args.pop(0))
             return worker(slot, int(os.environ["MATRIX_SEED"]), os.environ.get("MATRIX_OWN") == "1", args)
-    names = args or sorted(os.listdir(os.path.join(VERIF, "seeded")))
+    names = args or sorted(x for x in os.listdir(os.path.join(VERIF, root)) if os.path.isdir(os.path.join(VERIF, root, x)))
     nslots = min(nslots, len(names))
     shutil.rmtree(SLOTS, ignore_errors=True)
     procs = []
